@@ -565,7 +565,75 @@ def run_jvp_forms(ctx, i, rng):
     ctx.check(close(yt, yt_r), 'jvp:tangent:call_forms', lambda: dict(case=desc))
 
 
+def run_attr_modules(ctx, i, rng):
+  """The differentiated module holds OTHER modules as dataclass attributes (owned by the enclosing module, handed in by
+  reference), declared in an order that is not alphabetical: nn.vjp(multi_scope=True) / nn.value_and_grad lift several scopes
+  at once and each attribute must keep computing with its own variables."""
+  import jax
+  import jax.numpy as jnp
+  import flax.linen as nn
+  order = [('post', 'body'), ('body', 'post'), ('zeta', 'alpha')][i % 3]      # declaration order of the two attribute fields
+  kind = ['vjp_multi', 'value_and_grad'][(i // 3) % 2]   # (nn.jvp rejects such modules with NotImplementedError: not lifted at all)
+  d = 2 + (i // 12) % 2
+  desc = dict(fields=order, kind=kind, d=d)
+  with ctx.case('attr_modules', i, desc, nontrivial=list(order) != sorted(order)):
+    class Affine(nn.Module):
+      @nn.compact
+      def __call__(self, x):
+        w = self.param('w', nn.initializers.normal(1.0), x.shape[-1:])
+        b = self.param('b', nn.initializers.normal(1.0), x.shape[-1:])
+        return x * w + b
+
+    f_last, f_first = order     # the FIRST declared field is applied last
+
+    def chain_call(self, x):
+      gain = self.param('gain', nn.initializers.normal(1.0), ())
+      return getattr(self, f_last)(jnp.tanh(getattr(self, f_first)(x))) * gain
+    Chain = type('Chain', (nn.Module,), {'__annotations__': {f_last: nn.Module, f_first: nn.Module}, '__call__': nn.compact(chain_call)})
+
+    def make_chain():
+      return Chain(**{f_last: Affine(name='p'), f_first: Affine(name='q')}, name='chain')
+
+    class Plain(nn.Module):
+      @nn.compact
+      def __call__(self, x):
+        return make_chain()(x)
+
+    class Lifted(nn.Module):
+      @nn.compact
+      def __call__(self, x, ct):
+        chain = make_chain()
+        if kind == 'vjp_multi':
+          y, bwd = nn.vjp(lambda m, x: m(x), chain, x, multi_scope=True)
+          return y, bwd(ct)[-1]
+        if kind == 'value_and_grad':
+          v, g = nn.value_and_grad(lambda m, x: jnp.sum(m(x) * ct), chain, x)
+          return v, g[0] if isinstance(g, tuple) else g
+        y, yt = nn.jvp(lambda m, x: m(x), chain, (x,), (ct,), {})
+        return y, yt
+
+    nr = np.random.default_rng(i)
+    x = jnp.asarray(nr.uniform(-1, 1, (3, d)).astype(np.float32))
+    ct = jnp.asarray(nr.uniform(-1, 1, (3, d)).astype(np.float32))
+    V = Plain().init(jax.random.key(i), x)
+    V = jax.tree_util.tree_map(lambda a: a + jnp.asarray(nr.uniform(0.2, 0.9, a.shape).astype(np.float32)), V)   # p and q clearly different
+    got = Lifted().apply(V, x, ct)
+    ctx.op('nn.%s(module with attribute modules)' % kind)
+    pure = lambda xx: Plain().apply(V, xx)
+    if kind == 'vjp_multi':
+      y_r, bw = jax.vjp(pure, x)
+      want = (y_r, bw(ct)[0])
+    elif kind == 'value_and_grad':
+      want = jax.value_and_grad(lambda xx: jnp.sum(pure(xx) * ct))(x)
+    else:
+      want = jax.jvp(pure, (x,), (ct,))
+    ctx.check(close(got[0], want[0]), 'attr_modules:primal', lambda: dict(case=desc))
+    ctx.check(close(got[1], want[1]), 'attr_modules:input_cotangent_or_tangent', lambda: dict(case=desc))
+
+
 def run(ctx):
+  for i in ctx.indices(24 if ctx.tier == 'quick' else 72, 'attr_modules'):
+    run_attr_modules(ctx, i, ctx.rng('attr_modules', i))
   for i in ctx.indices(24 if ctx.tier == 'quick' else 48, 'jvp_forms'):
     run_jvp_forms(ctx, i, ctx.rng('jvp_forms', i))
   for i in ctx.indices(48 if ctx.tier == 'quick' else 480, 'noisy'):
